@@ -1,7 +1,7 @@
 package rules
 
 import (
-	"golang.org/x/tools/go/ssa"
+	ssa "xvc/xssa"
 
 	"xvc/load"
 	"xvc/q"
